@@ -141,6 +141,9 @@ WIRE_FAULTS = {
     'notification-20': ((20, 3, None), (1, 2)),     # 4.5: a NOTIFICATION is at least 21 octets
     'refresh-24': ((24, 5, None), (1, 2)),          # RFC 2918 3: a ROUTE-REFRESH is exactly 23 octets
     'type-9': ((19, 9, None), (1, 3)),
+    # the same classes with a Length whose octets are no text (RFC 4271 6.1: the erroneous Length is the NOTIFICATION data)
+    'keepalive-200': ((200, 4, None), (1, 2)),
+    'refresh-511': ((511, 5, None), (1, 2)),
 }
 
 
